@@ -48,6 +48,11 @@ type ExchangeOptions struct {
 	Defaults   bool
 	Docs       bool // descriptions and deprecated flags on operations, parameters and schemas
 	DenseDocs  bool // with Docs: always the dense variant (else drawn, 1 in 3)
+	// ECMAPatterns: some plain string parameters and members carry a `pattern` that only a
+	// backtracking ECMA-262 engine can run (look-ahead, back-reference): ogen's fallback matcher.
+	// The patterns accept some of the builder's core strings and refuse others. Not for checks
+	// whose oracle must evaluate the pattern (C01, C03): for checks that compare runs (C19).
+	ECMAPatterns bool
 }
 
 func primSchema(t *rapid.T, eo ExchangeOptions) *Schema {
@@ -67,6 +72,9 @@ func primSchema(t *rapid.T, eo ExchangeOptions) *Schema {
 		case "number":
 			s.Format = rapid.SampledFrom([]string{"float", "double", "int32", "int64"}).Draw(t, "nfmt")
 		}
+	}
+	if eo.ECMAPatterns && k == "string" && s.Format == "" && rapid.IntRange(0, 1).Draw(t, "ecmapattern") == 0 {
+		s.Pattern = rapid.SampledFrom([]string{`^(?!tmp-)[a-z][a-z0-9-]*$`, `^(?=.*[0-9])[a-zA-Z0-9_]+$`, `^(a|v)(?!b)`, `^(.)\1`}).Draw(t, "ecma")
 	}
 	if eo.Defaults && rapid.IntRange(0, 3).Draw(t, "default") == 0 && s.Format == "" {
 		switch k {
